@@ -13,6 +13,8 @@ def built(spec, lam=True):
     if getattr(spec, "model", None) is not None and lam:
         return spec.model          # catalogue model: the real object from pygom.model.common_models
     key = (spec.name, lam)
+    if sym.CONCRETE_RUN:
+        return spec.build(lam=lam)      # replays / fidelity runs: a fresh object, free of whatever symbolic runs left in it
     if key not in _MODELS:
         _MODELS[key] = spec.build(lam=lam)
     return _MODELS[key]
